@@ -18,7 +18,7 @@ var repoRoot = "/repo"
 // that the scheduler's own hand-offs and bookkeeping add no happens-before edges
 var uninstrumented = []string{
 	"verif/engine/vs", "verif/engine/vsync", "verif/engine/vctx", "verif/engine/vtime",
-	"verif/engine/vrand", "verif/engine/vpipe", "verif/engine/explore",
+	"verif/engine/vrand", "verif/engine/vmrand", "verif/engine/vpipe", "verif/engine/explore",
 }
 
 func genOverlay(b *built) (string, error) {
